@@ -7,6 +7,7 @@ package main
 import (
 	"fmt"
 	"go/types"
+	"strings"
 
 	"golang.org/x/tools/go/ssa"
 )
@@ -246,18 +247,20 @@ func (ex *Exec) arrWritten(a *ArrObj, seen, skip map[interface{}]bool) (bool, st
 
 type guardRule struct {
 	name string
-	lock *Value // mutex cell that must be held (nil = must never be accessed plainly)
+	kind string // mutex | rwmutex | nowrite | atomic
+	lock *Value // mutex cell that must be held
 	rw   bool   // RWMutex: reads need R or W, writes need W
 }
 
 type lockMonitor struct {
 	cells   map[*Value]*guardRule
 	objs    map[interface{}]*guardRule
+	stop    map[interface{}]bool
 	reports map[string]bool
 }
 
 func (ex *Exec) monitorAccess(c *Value, write bool, site ssa.Instruction) {
-	if ex.monitor == nil {
+	if ex.monitor == nil || !ex.monitorOn {
 		return
 	}
 	if r, ok := ex.monitor.cells[c]; ok {
@@ -266,7 +269,7 @@ func (ex *Exec) monitorAccess(c *Value, write bool, site ssa.Instruction) {
 }
 
 func (ex *Exec) monitorObj(o interface{}, write bool, site ssa.Instruction) {
-	if ex.monitor == nil {
+	if ex.monitor == nil || !ex.monitorOn {
 		return
 	}
 	if r, ok := ex.monitor.objs[o]; ok {
@@ -276,6 +279,15 @@ func (ex *Exec) monitorObj(o interface{}, write bool, site ssa.Instruction) {
 
 func (ex *Exec) checkGuard(r *guardRule, write bool, site ssa.Instruction) {
 	ok := false
+	switch r.kind {
+	case "nowrite":
+		ok = !write
+	case "atomic":
+		ok = false
+	}
+	if site != nil && site.Parent() != nil && strings.HasPrefix(site.Parent().Name(), "vf") {
+		return // the harness's own reads are not part of the program
+	}
 	if r.lock != nil {
 		if ls := ex.locks[r.lock]; ls != nil {
 			if r.rw {
